@@ -37,12 +37,16 @@ def check(ctx):
                 "must be refuted. Code: for IPFIX and sFlow, max-udp-size in {28, 64, 1500 (thorough: 9000)}, the real worker's "
                 "mirror branch, the real dispatcher and the real mirror worker (raw socket) are run and every TLC case (all lengths "
                 "for the small sizes, boundary lengths 0,1,2,max-29..max for the large ones; 4- and 16-octet exporter addresses) is "
-                "fed through the collector's queue; the mirrored packet is captured with its IP header on a raw receive socket and "
+                "fed through the collector's queue (for max-udp-size 64 after 2200 datagrams from an IPv6 exporter, which an IPv4 target "
+                "cannot take: MirrorDispatch.tla); the mirrored packet is captured with its IP header on a raw receive socket and "
                 "compared with the model's packet. One evaluation = one datagram; non-trivial = n > 0; distinct by (protocol, size, n, form).")
     ctx.assumptions += ["raw sockets need CAP_NET_RAW (present in this sandbox); exporter addresses are taken from 127.0.0.0/8 so that loopback delivers them",
                         "the IP identification and header checksum are filled in by the kernel and not compared"]
     ctx.tlc_must_fail("MirrorMC", "asbuilt.cfg", files={"asbuilt.cfg": CFG % dict(max=64, cap=64, p4="FALSE", sport=55117, dport=4172, emit="FALSE")}, expect="Faithful", workers=2)
     ctx.tlc_must_fail("MirrorMC", "src4.cfg", files={"src4.cfg": CFG % dict(max=64, cap=92, p4="TRUE", sport=55117, dport=4172, emit="FALSE")}, expect="Faithful", workers=2)
+    # the dispatcher (extension): datagrams of the target's address family keep being mirrored whatever else arrives
+    ctx.tlc_model("MirrorDispatch", "MirrorDispatch.cfg", workers=4)
+    ctx.tlc_must_fail("MirrorDispatch", "MirrorDispatchAsBuilt.cfg", workers=4)
     drv = ctx.go_build_test("vflow", ["vflow/mirror_verif_test.go"])
     d = ctx.subdir("c16")
     sizes = [28, 64, 1500] + ([9000] if thorough else [])
@@ -72,7 +76,8 @@ def check(ctx):
                         os.remove(f)
                 rc, log, to = ctx.go_run(drv, "TestVerifMirror", timeout=900,
                                          env={"VERIF_CASES": cin, "VERIF_OUT": cout, "VERIF_PROTO": proto, "VERIF_MAXUDP": mx,
-                                              "VERIF_PORT": port, "VERIF_PROGRESS": prog, "VERIF_OTHERUDP": other, "VERIF_BURST": burst})
+                                              "VERIF_PORT": port, "VERIF_PROGRESS": prog, "VERIF_OTHERUDP": other, "VERIF_BURST": burst,
+                                              "VERIF_V6FLOOD": 2200 if (mx == 64 and burst == runs[0][1]) else 0})
                 if "raw receive socket" in log or "operation not permitted" in log:
                     raise vlib.Infra("raw sockets not available: " + log[-500:])
                 got = vlib.read_ndjson(cout) if os.path.exists(cout) else []
